@@ -89,6 +89,10 @@ EXPLANATION += (
     ' Round 15: the CPM conversion divides by the row total with zero totals replaced (R-ARITH/cpm, rule of C07).'
 )
 
+EXPLANATION += (
+    ' Round 16: element i of what _run_type_assignment returns is element i of the choose_node call (R-SAMEVAL/results-as-chosen).'
+)
+
 RULE_TEXT = (
     "one obligation per arithmetic relation (quotient, divisor, slice "
     "bound, constant, loop shape); non-trivial when the construct exists")
